@@ -171,7 +171,14 @@ impl Transform {
         };
 
         // Check if the program is runnable, fail fast if it is not.
-        match Command::new(&program).spawn() {
+        // The probe must not touch the standard streams of fclones: a program that reads its input
+        // until EOF and then prints something (gzip, cat) would write into the report.
+        match Command::new(&program)
+            .stdin(Stdio::null())
+            .stdout(Stdio::null())
+            .stderr(Stdio::null())
+            .spawn()
+        {
             Ok(mut child) => {
                 let _ignore = child.kill();
             }
